@@ -106,6 +106,31 @@ func (u *Universe) dbRp() (string, string) {
 	return u.db(), u.rp()
 }
 
+// dbLive draws a database name: 60 % of the time one that exists in the current catalogue.
+func (u *Universe) dbLive() string {
+	if u.State != nil && u.R.Chance(60) {
+		if dbs := sortedKeys(u.State().Databases); len(dbs) > 0 {
+			return dbs[u.R.Intn(len(dbs))]
+		}
+	}
+	return u.db()
+}
+
+// nearID: an id next to one that exists (what a lower-bound search or a `>=` would also hit)
+func (u *Universe) nearID(kind string, max int) uint64 {
+	id := u.idOf(kind, max)
+	if u.R.Chance(6) {
+		return 0 // below every id
+	}
+	if u.R.Chance(15) && id > 0 {
+		if u.R.Bool() {
+			return id - 1
+		}
+		return id + 1
+	}
+	return id
+}
+
 // nameOf draws the name of an object of the given kind ("stream", "cq", "sub"): 60 % of the time
 // one that exists in the current catalogue, otherwise from the fixed list.
 func (u *Universe) nameOf(kind string, fixed []string) string {
@@ -610,7 +635,7 @@ func init() {
 	})
 	reg("PruneGroups", T("PruneGroupsCommand"), 6, func(u *Universe) Cmd {
 		sg := u.R.Chance(65)
-		id := u.idOf(map[bool]string{true: "shard", false: "index"}[sg], 16)
+		id := u.nearID(map[bool]string{true: "shard", false: "index"}[sg], 16)
 		v := &proto2.PruneGroupsCommand{ShardGroup: pb(sg), ID: pu64(id)}
 		return Cmd{PB: mk(T("PruneGroupsCommand"), proto2.E_PruneGroupsCommand_Command, v), Text: fmt.Sprintf("PruneGroups %s %d", b01(sg), id)}
 	})
@@ -634,7 +659,7 @@ func init() {
 	})
 	reg("UpdateShardInfoTier", T("UpdateShardInfoTierCommand"), 2, func(u *Universe) Cmd {
 		db, rp := u.dbRp()
-		id := u.idOf("shard", 16)
+		id := u.nearID("shard", 16)
 		tier := uint64(1 + u.R.Intn(3))
 		v := &proto2.UpdateShardInfoTierCommand{ShardID: pu64(id), Tier: pu64(tier), DbName: ps(db), RpName: ps(rp)}
 		return Cmd{PB: mk(T("UpdateShardInfoTierCommand"), proto2.E_UpdateShardInfoTierCommand_Command, v), Text: fmt.Sprintf("UpdateShardInfoTier %d %d %s %s", id, tier, tok(db), tok(rp))}
@@ -824,7 +849,7 @@ func init() {
 		return &proto2.RegisterQueryIDOffsetCommand{Host: ps(h)}, h
 	})
 	un("CreateContinuousQuery", "CreateContinuousQueryCommand", 2, proto2.E_CreateContinuousQueryCommand_Command, func(u *Universe) (interface{}, string) {
-		db := u.db()
+		db := u.dbLive()
 		n := u.CQs[u.R.Intn(len(u.CQs))]
 		q := []string{"SELECT 1", "select 1", "SELECT 2"}[u.R.Intn(3)]
 		return &proto2.CreateContinuousQueryCommand{Database: ps(db), Name: ps(n), Query: ps(q)}, fmt.Sprint(db, " ", n, " ", q)
@@ -835,7 +860,7 @@ func init() {
 		return &proto2.ContinuousQueryReportCommand{CQStates: []*proto2.CQState{{Name: ps(n), LastRunTime: p64(ts)}}}, fmt.Sprint(n, " ", ts)
 	})
 	un("DropContinuousQuery", "DropContinuousQueryCommand", 1, proto2.E_DropContinuousQueryCommand_Command, func(u *Universe) (interface{}, string) {
-		n, db := u.nameOf("cq", u.CQs), u.db()
+		n, db := u.nameOf("cq", u.CQs), u.dbLive()
 		return &proto2.DropContinuousQueryCommand{Name: ps(n), Database: ps(db)}, n + " " + db
 	})
 	un("NotifyCQLeaseChanged", "NotifyCQLeaseChangedCommand", 1, proto2.E_NotifyCQLeaseChangedCommand_Command, func(u *Universe) (interface{}, string) {
@@ -871,7 +896,7 @@ func init() {
 	})
 	un("UpdateIndexInfoTier", "UpdateIndexInfoTierCommand", 2, proto2.E_UpdateIndexInfoTierCommand_Command, func(u *Universe) (interface{}, string) {
 		db, rp := u.dbRp()
-		id := u.idOf("index", 12)
+		id := u.nearID("index", 12)
 		tier := uint64(1 + u.R.Intn(3))
 		return &proto2.UpdateIndexInfoTierCommand{IndexID: pu64(id), Tier: pu64(tier), DbName: ps(db), RpName: ps(rp)}, fmt.Sprint(id, " ", tier, " ", db, " ", rp)
 	})
